@@ -34,13 +34,35 @@ Proof.
   destruct (op s k v); cbn [bind]; try reflexivity. apply IH. assumption.
 Qed.
 
+(* the static conflict check decides acceptance before any document is looked at *)
+Lemma apply_with_conflict m d q u up fs now p :
+  conflicting_path u = Some p -> apply_with m d q u up fs now = Err.
+Proof. intro H. unfold apply_with. destruct u; [reflexivity|]. rewrite H. reflexivity. Qed.
+
+Lemma apply_with_accept m d q u up fs now :
+  u <> [] -> conflicting_path u = None ->
+  apply_with m d q u up fs now =
+  let* s := apply_ops m up now fs u (d, []) in Ok (fst s, sort_changes (snd s)).
+Proof.
+  intros Hu H. unfold apply_with. destruct u; [congruence|]. rewrite H.
+  destruct (apply_ops m up now fs (p :: u) (d, [])) as [[d' ch]| | | |]; reflexivity.
+Qed.
+
+Lemma apply_with_ok_no_conflict m d q u up fs now r :
+  apply_with m d q u up fs now = Ok r -> conflicting_path u = None.
+Proof.
+  intro H. destruct (conflicting_path u) eqn:E; [|reflexivity].
+  rewrite (apply_with_conflict _ _ _ _ _ _ _ _ E) in H. discriminate.
+Qed.
+
 (* an update made of one operator *)
 Lemma apply_one_operator m d q k g op pairs up fs now :
   starts_dollar k = true -> assoc k (update_ops m up now) = Some (g, op) ->
+  conflicting_path [(k, VDoc pairs)] = None ->
   apply_with m d q [(k, VDoc pairs)] up fs now =
   let* s := apply_pairs m fs op pairs (d, []) in Ok (fst s, sort_changes (snd s)).
 Proof.
-  intros Hk Ha. unfold apply_with. cbn [apply_ops]. rewrite Hk, Ha.
+  intros Hk Ha NC. rewrite apply_with_accept by (try discriminate; exact NC). cbn [apply_ops]. rewrite Hk, Ha.
   destruct (apply_pairs m fs op pairs (d, [])) as [[d' ch]| | | |]; reflexivity.
 Qed.
 
@@ -71,6 +93,7 @@ Qed.
 
 (* success of the whole = success of every operator, in order *)
 Theorem apply_all_or_error m d q u1 kv u2 up fs now :
+  conflicting_path (u1 ++ kv :: u2) = None ->
   forall r, apply_with m d q (u1 ++ kv :: u2) up fs now = r ->
   match apply_ops m up now fs u1 (d, []) with
   | Ok s1 =>
@@ -85,8 +108,7 @@ Theorem apply_all_or_error m d q u1 kv u2 up fs now :
   | Err => r = Err | Panic => r = Panic | OutOfFuel => r = OutOfFuel | Unmodelled => r = Unmodelled
   end.
 Proof.
-  intros r <-. unfold apply_with.
-  destruct (u1 ++ kv :: u2) eqn:E; [destruct u1; discriminate|]. rewrite <- E. clear E.
+  intros NC r <-. rewrite apply_with_accept by (try exact NC; destruct u1; discriminate).
   rewrite apply_ops_app. destruct (apply_ops m up now fs u1 (d, [])) as [s1| | | |]; cbn [bind]; try reflexivity.
   change (kv :: u2) with ([kv] ++ u2). rewrite apply_ops_app.
   destruct (apply_ops m up now fs [kv] s1) as [s2| | | |]; cbn [bind]; try reflexivity.
@@ -99,7 +121,8 @@ Corollary apply_rejects_as_a_whole m d q u1 kv u2 up fs now s1 :
   apply_ops m up now fs [kv] s1 = Err ->
   apply_with m d q (u1 ++ kv :: u2) up fs now = Err.
 Proof.
-  intros H1 H2. pose proof (apply_all_or_error m d q u1 kv u2 up fs now _ eq_refl) as H.
+  intros H1 H2. destruct (conflicting_path (u1 ++ kv :: u2)) eqn:NC; [eapply apply_with_conflict; exact NC|].
+  pose proof (apply_all_or_error m d q u1 kv u2 up fs now NC _ eq_refl) as H.
   rewrite H1, H2 in H. exact H.
 Qed.
 
@@ -518,10 +541,11 @@ Qed.
 
 Lemma apply_with_one m d q k op pairs up fs now :
   starts_dollar k = true -> (exists g, assoc k (update_ops m up now) = Some (g, op)) -> plain_pairs pairs ->
+  conflicting_path [(k, VDoc pairs)] = None ->
   apply_with m d q [(k, VDoc pairs)] up fs now =
   let* s := run op pairs (d, []) in Ok (fst s, sort_changes (snd s)).
 Proof.
-  intros Hk [g Ha] Hp. rewrite (apply_one_operator _ _ _ _ _ _ _ _ _ _ Hk Ha).
+  intros Hk [g Ha] Hp NC. rewrite (apply_one_operator _ _ _ _ _ _ _ _ _ _ Hk Ha NC).
   rewrite apply_pairs_plain by assumption. reflexivity.
 Qed.
 
@@ -530,7 +554,8 @@ Lemma apply_with_one_ok m d q k op pairs up fs now d1 ch1 :
   apply_with m d q [(k, VDoc pairs)] up fs now = Ok (d1, ch1) ->
   exists ch, run op pairs (d, []) = Ok (d1, ch).
 Proof.
-  intros Hk Ha Hp H. rewrite (apply_with_one _ _ _ _ _ _ _ _ _ Hk Ha Hp) in H.
+  intros Hk Ha Hp H. pose proof (apply_with_ok_no_conflict _ _ _ _ _ _ _ _ H) as NC.
+  rewrite (apply_with_one _ _ _ _ _ _ _ _ _ Hk Ha Hp NC) in H.
   destruct (run op pairs (d, [])) as [[d' ch]| | | |]; cbn [bind fst snd] in H; try discriminate.
   injection H as <- _. eauto.
 Qed.
@@ -548,7 +573,7 @@ Proof.
   rewrite (run_ext _ _ _ E) in R.
   destruct (decided_idempotent_single decide Id _ _ _ _ _ C R) as [ch2 R2].
   rewrite <- (run_ext _ _ _ E) in R2.
-  rewrite (apply_with_one _ _ _ _ _ _ _ _ _ Hk Ha PP), R2. cbn [bind fst snd]. eauto.
+  rewrite (apply_with_one _ _ _ _ _ _ _ _ _ Hk Ha PP (apply_with_ok_no_conflict _ _ _ _ _ _ _ _ H)), R2. cbn [bind fst snd]. eauto.
 Qed.
 
 (* ... on any number of pairwise disjoint plain field paths *)
@@ -563,7 +588,7 @@ Proof.
   rewrite (run_ext _ _ _ E) in R.
   destruct (decided_idempotent_list decide Id _ _ _ _ F PD R) as [ch2 R2].
   rewrite <- (run_ext _ _ _ E) in R2.
-  rewrite (apply_with_one _ _ _ _ _ _ _ _ _ Hk Ha PP), R2. cbn [bind fst snd]. eauto.
+  rewrite (apply_with_one _ _ _ _ _ _ _ _ _ Hk Ha PP (apply_with_ok_no_conflict _ _ _ _ _ _ _ _ H)), R2. cbn [bind fst snd]. eauto.
 Qed.
 
 (* $unset on one plain path (documents with unique keys) *)
@@ -578,7 +603,7 @@ Proof.
   assert (Hk : starts_dollar "$unset"%string = true) by reflexivity.
   destruct (apply_with_one_ok _ _ _ _ _ _ _ _ _ _ _ Hk Ha PP H) as [ch R].
   destruct (unset_idempotent_single _ _ _ _ _ U R) as [ch2 R2].
-  rewrite (apply_with_one _ _ _ _ _ _ _ _ _ Hk Ha PP), R2. cbn [bind fst snd]. eauto.
+  rewrite (apply_with_one _ _ _ _ _ _ _ _ _ Hk Ha PP (apply_with_ok_no_conflict _ _ _ _ _ _ _ _ H)), R2. cbn [bind fst snd]. eauto.
 Qed.
 
 (* ------------------------------------------------------------------ *)
@@ -605,37 +630,112 @@ Theorem noop_reports_unchanged m d q u up fs now d' ch :
 Proof. intros _ ->. unfold counted_modified. rewrite value_eqb_refl. reflexivity. Qed.
 
 (* ------------------------------------------------------------------ *)
-(* the full idempotence statement — without the hypotheses "plain paths" and
-   "pairwise disjoint" — is FALSE of the faithful model (and of lungo): *)
+(* the static conflict check: acceptance of an update does not depend on the
+   document as far as path conflicts go *)
 
-Definition idempotent_for (m : doc -> doc -> res bool) (u : doc) : Prop :=
-  forall d q up fs now d1 ch1,
-    apply_with m d q u up fs now = Ok (d1, ch1) ->
-    exists ch2, apply_with m d1 q u up fs now = Ok (d1, ch2).
+(* a conflicting update is rejected for EVERY document (and query, upsert
+   flag, array filters, clock) *)
+Theorem conflicting_update_rejected m u p :
+  conflicting_path u = Some p ->
+  forall d q up fs now, apply_with m d q u up fs now = Err.
+Proof. intros H d q up fs now. eapply apply_with_conflict. exact H. Qed.
 
+(* every named path pair of an accepted update is free of static conflicts *)
+Fixpoint pairwise_free (names : list string) : Prop :=
+  match names with
+  | [] => True
+  | n :: t => Forall (fun m => static_conflict (split_path n) (split_path m) = false) t /\ pairwise_free t
+  end.
+
+Lemma first_conflict_none names : first_conflict names = None -> pairwise_free names.
+Proof.
+  induction names as [|n t IH]; intro H; [exact I|]. cbn [first_conflict] in H.
+  destruct (find (fun m => static_conflict (split_path n) (split_path m)) t) eqn:F; [discriminate|].
+  split; [|apply IH; exact H]. apply Forall_forall. intros x Hx.
+  destruct (static_conflict (split_path n) (split_path x)) eqn:E; [|reflexivity].
+  pose proof (find_none _ _ F x Hx) as N. cbn in N. congruence.
+Qed.
+
+Theorem accepted_paths_conflict_free m d q u up fs now r :
+  apply_with m d q u up fs now = Ok r -> pairwise_free (named_paths u).
+Proof. intro H. apply first_conflict_none. exact (apply_with_ok_no_conflict _ _ _ _ _ _ _ _ H). Qed.
+
+(* the two former counter-examples to idempotence (repaired by the static
+   check): a.$[] next to a.1, and 1.0 next to 1 whose first invocation is a
+   no-op — both are rejected now, whatever the document *)
 Open Scope string_scope.
 
-(* (A) a.$[] together with a fixed element of the same array: the resolved
-   paths a.0 / a.1 do not conflict, the array grows, and the second
-   application sees one more element *)
 Definition u_positional_and_index : doc :=
   [("$max", VDoc [("a.$[]", VInt32 5); ("a.1", VInt32 2)])].
 
-(* (B) conflicting paths 1.0 / 1 are accepted because the first invocation is
-   a no-op and is never recorded *)
 Definition u_conflict_after_noop : doc :=
   [("$max", VDoc [("1.0", VInt32 5); ("1", VArr [])])].
 
-Theorem idempotence_refuted m :
-  ~ idempotent_for m u_positional_and_index /\ ~ idempotent_for m u_conflict_after_noop.
+(* and the witness against the first draft of the check (a positional operator
+   and a fixed segment followed by different fields) *)
+Definition u_positional_and_index_below : doc :=
+  [("$set", VDoc [("a.$[].x", VInt32 1); ("a.1.y", VInt32 2)])].
+
+Theorem former_idempotence_witnesses_rejected m :
+  conflicting_path u_positional_and_index = Some "a.1" /\
+  conflicting_path u_conflict_after_noop = Some "1" /\
+  conflicting_path u_positional_and_index_below = Some "a.1.y" /\
+  forall d q up fs now,
+    apply_with m d q u_positional_and_index up fs now = Err /\
+    apply_with m d q u_conflict_after_noop up fs now = Err /\
+    apply_with m d q u_positional_and_index_below up fs now = Err.
 Proof.
-  split; intro H.
-  - specialize (H [("a", VArr [VInt32 1])] [] false [] 0 [("a", VArr [VInt32 5; VInt32 2])]
-                  [("a.0", VInt32 5); ("a.1", VInt32 2)] eq_refl).
-    destruct H as [ch2 H]. vm_compute in H. discriminate.
-  - specialize (H [("1", VDoc [("0", VString "")])] [] false [] 0 [("1", VArr [])]
-                  [("1", VArr [])] eq_refl).
-    destruct H as [ch2 H]. vm_compute in H. discriminate.
+  assert (A : conflicting_path u_positional_and_index = Some "a.1") by reflexivity.
+  assert (B : conflicting_path u_conflict_after_noop = Some "1") by reflexivity.
+  assert (C : conflicting_path u_positional_and_index_below = Some "a.1.y") by reflexivity.
+  repeat split; auto; eapply apply_with_conflict; eassumption.
+Qed.
+
+(* conflict-free plain field paths are disjoint *)
+Lemma static_conflict_free_disjoint p : forall q,
+  static_conflict p q = false -> field_path p -> disjoint p q.
+Proof.
+  induction p as [|a p' IH]; intros q H F; [discriminate|].
+  destruct q as [|b q']; [discriminate|]. inversion F as [|? ? Fa Fp]; subst.
+  cbn [static_conflict disjoint] in *. destruct (String.eqb_spec a b) as [->|N].
+  - left. split; [reflexivity | apply IH; assumption].
+  - right. split; [exact N|]. intros i Hi. rewrite Fa in Hi. discriminate.
+Qed.
+
+Lemma named_paths_single k pairs :
+  starts_dollar k = true -> k <> "$rename"%string -> named_paths [(k, VDoc pairs)] = map fst pairs.
+Proof.
+  intros Hk Nr. unfold named_paths. cbn [flat_map fst snd]. rewrite Hk, app_nil_r.
+  assert (E : String.eqb k "$rename" = false) by (apply String.eqb_neq; exact Nr). rewrite E.
+  induction pairs as [|[p v] t IH]; [reflexivity|]. cbn [flat_map map fst snd].
+  destruct v; cbn [app]; rewrite IH; reflexivity.
+Qed.
+
+Lemma pairwise_free_disjoint names :
+  pairwise_free names -> Forall (fun n => field_path (split_path n)) names -> pairwise_disjoint names.
+Proof.
+  induction names as [|n t IH]; intros H F; [exact I|]. destruct H as [H1 H2]. inversion F as [|? ? Fn Ft]; subst.
+  cbn [pairwise_disjoint]. split; [|apply IH; assumption].
+  rewrite Forall_forall in *. intros x Hx. apply static_conflict_free_disjoint; [apply H1; exact Hx | exact Fn].
+Qed.
+
+Lemma idem_operator_not_rename m k op : idem_operator m k op -> k <> "$rename"%string.
+Proof. intro H. destruct H; discriminate. Qed.
+
+(* idempotence on any number of plain field paths: that the paths are pairwise
+   disjoint is no longer a hypothesis but a consequence of acceptance *)
+Theorem apply_idempotent_accepted m d q k op pairs up fs now d1 ch1 :
+  idem_operator m k op -> plain_pairs pairs -> field_pairs pairs ->
+  apply_with m d q [(k, VDoc pairs)] up fs now = Ok (d1, ch1) ->
+  exists ch2, apply_with m d1 q [(k, VDoc pairs)] up fs now = Ok (d1, ch2).
+Proof.
+  intros I PP F H. eapply apply_idempotent_list; eauto.
+  destruct (idem_operator_registered m up now _ _ I) as [Hk _].
+  pose proof (accepted_paths_conflict_free _ _ _ _ _ _ _ _ H) as PF.
+  rewrite (named_paths_single _ _ Hk (idem_operator_not_rename _ _ _ I)) in PF.
+  apply pairwise_free_disjoint; [exact PF|].
+  unfold field_pairs in F. rewrite Forall_forall in *. intros n Hn. apply in_map_iff in Hn.
+  destruct Hn as ([p v] & <- & Hin). exact (F _ Hin).
 Qed.
 
 (* (C, repaired by /repo 4eddedf) a positional operator is only recognised at
